@@ -15,7 +15,7 @@ const mkCfg = "protocols/tls.MakeConfig"
 func init() {
 	register(Property{ID: "C41", Level: "proof", Run: runC41,
 		Technique: "static analysis: must-pass-through path conditions on the VerifyConnection closure of tls.MakeConfig (go/ssa), whole-program enumeration of MakeConfig call sites, of stores to tls.Config.InsecureSkipVerify/VerifyConnection and of Clone-or-fresh merges of TLS configurations",
-		Text:      "Proof obligations (sites x clauses) over the whole module: (1) the closure installed as VerifyConnection returns nil only under equality of hex(SHA-256(PeerCertificates[0].Raw)) with strings.ToLower(fingerprint) and returns an error only under inequality; the hash input is the leaf certificate's Raw, written once before Sum(nil); (2) MakeConfig returns a configuration exactly when the fingerprint is non-empty, with InsecureSkipVerify=true (chain validity irrelevant) and that closure; (3) every call of MakeConfig in the module (10 outgoing-TLS sites: auth HTTP, JWKS, 5 sources, 3 forwarders) passes the fingerprint field of its own configuration object (frozen table) and on every path to a return the result is stored into a TLS-configuration field or passed to the dialing callee; (4) InsecureSkipVerify / VerifyConnection are stored nowhere else in the module except on fresh configurations that also install a verifier, and never on an existing (possibly pinned) configuration; (5) wherever a configuration is merged with a fresh one (Clone-or-new), the fresh one is chosen only when the incoming configuration is nil.",
+		Text:      "Proof obligations (sites x clauses) over the whole module: (1) the closure installed as VerifyConnection returns nil only under equality of hex(SHA-256(PeerCertificates[0].Raw)) with strings.ToLower(fingerprint) and returns an error only under inequality; the hash input is the leaf certificate's Raw, written once before Sum(nil); (2) MakeConfig returns a configuration exactly when the fingerprint is non-empty, with InsecureSkipVerify=true (chain validity irrelevant) and that closure; (3) every call of MakeConfig in the module (10 outgoing-TLS sites: auth HTTP, JWKS, 5 sources, 3 forwarders) passes the fingerprint field of its own configuration object (frozen table) and on every path to a return the result is stored into a TLS-configuration field or passed to the dialing callee; (4) InsecureSkipVerify / VerifyConnection are stored nowhere else in the module except on fresh configurations that also install a verifier, and never on an existing (possibly pinned) configuration; (5) wherever a configuration is merged with a fresh one (Clone-or-new), the fresh one is chosen only when the incoming configuration is nil; (6) 'the fingerprint configured' also after a hot reload: every component of Core.createResources that copies a conf field F into a field named *Fingerprint (auth.Manager.HTTPFingerprint, JWTJWKSFingerprint - the values clause 3 sees handed to MakeConfig) is dropped in Core.closeResources (Close call or nil store on its Core field) only under conditions that, expanded through ||/&& chains, close flags and extracted predicate functions, contain a comparison of F between the new and the current configuration - otherwise a reload that rotates or revokes a pin keeps the old one in force (C41.reload.*, prop_r4_c41.go).",
 		Note:      "trusted: crypto/tls calls VerifyConnection on every handshake and fails the handshake on error; tls.Config.Clone keeps VerifyConnection and InsecureSkipVerify; third-party clients (net/http, gortsplib, gortmplib, gohlslib, quic-go, webtransport-go, pion) use the configuration they are given; crypto/sha256 and encoding/hex (lower-case output)"})
 	addMutants(
 		Mutant{"C41", "comparison-dropped", "internal/protocols/tls/make_config.go",
@@ -40,6 +40,13 @@ func init() {
 			"		c.TLSConfig = tlsConfig\n", "", "C41.callers.used"},
 		Mutant{"C41", "verifier-cleared-after-clone", "internal/packetdumper/dial_tls_context.go",
 			"	pdConn := netConn.(*conn)", "	tlsConfig.VerifyConnection = nil\n	pdConn := netConn.(*conn)", "C41.skip_verify"},
+		// round 4: the pin in force after a reload is not the configured one
+		Mutant{"C41", "jwks-fingerprint-not-compared-on-reload", "internal/core/core.go",
+			"		newConf.AuthJWTJWKSFingerprint != currentConf.AuthJWTJWKSFingerprint ||\n", "", "C41.reload.compared"},
+		Mutant{"C41", "http-fingerprint-compared-with-itself-on-reload", "internal/core/core.go",
+			"newConf.AuthHTTPFingerprint != currentConf.AuthHTTPFingerprint ||", "newConf.AuthHTTPFingerprint != newConf.AuthHTTPFingerprint ||", "C41.reload.compared"},
+		Mutant{"C41", "auth-manager-reset-under-another-flag", "internal/core/core.go",
+			"	if closeAuthManager && p.authManager != nil {\n		p.authManager = nil\n	}", "	if closeLogger && p.authManager != nil {\n		p.authManager = nil\n	}", "C41.reload.compared"},
 	)
 }
 
@@ -67,7 +74,8 @@ func runC41(c *Ctx) {
 	if p == nil {
 		return
 	}
-	c.Explain = "E1 on tls.MakeConfig and its VerifyConnection closure (accept/reject literals built from the resolved hash and captured fingerprint values; hash input and order of Write/Sum); E2 enumeration of every MakeConfig call (argument table, use on all paths to a return), of every store to crypto/tls.Config.{InsecureSkipVerify,VerifyConnection} in the module, and of every phi merging Clone(cfg) with a fresh configuration (fresh edge only under cfg == nil)."
+	c.Explain = "E1 on tls.MakeConfig and its VerifyConnection closure (accept/reject literals built from the resolved hash and captured fingerprint values; hash input and order of Write/Sum); E2 enumeration of every MakeConfig call (argument table, use on all paths to a return), of every store to crypto/tls.Config.{InsecureSkipVerify,VerifyConnection} in the module, and of every phi merging Clone(cfg) with a fresh configuration (fresh edge only under cfg == nil). C41.reload (prop_r4_c41.go, machinery of C05.config.reload): components of Core.createResources with a *Fingerprint field loaded from conf field F; their drop sites in Core.closeResources; the leaves of the dominating conditions (boolean phis, local flags, negations, module predicate calls with the guards of their returns) must contain a comparison of F of two configurations. Not decided there: fingerprints of path-level objects (sources, forwarders), which receive their configuration through the path reload mechanism (C13/C16)."
+	defer dumpObls(c)
 	c.Assume = []string{
 		"crypto/tls invokes Config.VerifyConnection on every handshake, also with InsecureSkipVerify, and aborts on a non-nil error",
 		"tls.Config.Clone preserves InsecureSkipVerify and VerifyConnection",
@@ -77,6 +85,8 @@ func runC41(c *Ctx) {
 	c.c41Callers(p)
 	c.c41Stores(p)
 	c.c41Forward(p)
+	// the fingerprint handed to MakeConfig by a long-lived component is the configured one after a reload (prop_r4_c41.go)
+	c.c41ReloadR4(p)
 }
 
 func (c *Ctx) c41Make(p *Prog) {
